@@ -248,6 +248,12 @@ class GenRule(TermRule):
                 if r:
                     outs.append(self._raise(st, node, leaf, r, args))
                 return outs
+        if isinstance(f, ast.Call) and ast.unparse(f.func) == "type" and len(f.args) == 1:
+            # type(x)(...): a new object of x's class
+            fv, _ = it.eval(st, f)
+            ft = term_of(fv[0][1]) if fv else "?"
+            if ft and ft != "?":
+                return [Out("normal", st, tv(T("new:" + ft, *args), none=False, truth=True))]
         return None
 
 
